@@ -27,13 +27,16 @@ SPEC = {
     "floors": {
         "quick": {"inline_blocks_checked": 150, "batched_blocks_checked": 300, "inline_vs_batched_comparisons": 150,
                   "wallet_outputs_in_truth": 1500, "foreign_outputs_in_truth": 2500, "tracked_spends_in_truth": 300,
-                  "corruptions_rejected_batched": 250, "distinct_schedules_observed": 30, "distinct_nontrivial": 80},
+                  "corruptions_rejected_batched": 250, "distinct_schedules_observed": 30, "distinct_nontrivial": 80,
+                  "prior_state_corruptions": 20, "prior_state_frontier_emptied_ironwood": 4, "prior_state_frontier_emptied_orchard": 4, "prior_state_frontier_emptied_sapling": 4,
+                  "prior_state_true_state_accepted": 20},
         "thorough": {"inline_blocks_checked": 12000, "batched_blocks_checked": 16000, "inline_vs_batched_comparisons": 10000,
-                     "wallet_outputs_in_truth": 100000, "corruptions_rejected_batched": 15000, "distinct_schedules_observed": 300, "distinct_nontrivial": 400},
+                     "wallet_outputs_in_truth": 100000, "corruptions_rejected_batched": 15000, "distinct_schedules_observed": 300, "distinct_nontrivial": 400,
+                     "prior_state_corruptions": 1000, "prior_state_frontier_emptied_ironwood": 150, "prior_state_true_state_accepted": 1000},
     },
     "manifest": {
         "technique": "three-observer differential (inline scan / batched scan -> database / fabricated ground truth) + corruption operators with a whole-database dump oracle, under varied rayon pool sizes and hook-injected delays with schedule logging",
-        "text": "Every fabricated block is scanned inline and batched and both are compared with ground truth (received set with account/value/scope/position/nullifier, spent set, commitments in order, final tree sizes); every corruption must give Err with the database unchanged; results must not depend on thread count or injected delays. Held on everything executed.",
+        "text": "Every fabricated block is scanned inline and batched and both are compared with ground truth (received set with account/value/scope/position/nullifier, spent set, commitments in order, final tree sizes); every corruption must give Err with the database unchanged (corruptions of the block, and of the prior chain state a fresh wallet is told to scan it from: one pool's frontier emptied); results must not depend on thread count or injected delays. Held on everything executed.",
         "note": "Sampled blocks and schedules; TSan pass over the same workload is part of the thorough tier when the sanitizer build is available. Dependency note-encryption crates trusted.",
     },
 }
